@@ -156,6 +156,28 @@ def body(ctx):
         sess.close_loop()
         traces.append([dict(ev='corrupt', cls=o.exc_name or 'returned', leak=(o.kind == 'ret'))])
         meta.append(dict(kind='corruption', payload_first_byte=payload[0], byte=i, xor=x, mode=mode))
+    # 3b'. the payload is intact but the checksum field of the header is not what the payload sums to: 0, all ones, off by one, byte-swapped, ...
+    for pi, payload in enumerate([bytes(range(64, 128)), b'\x01', b'\xff' * 64, b'\x00' * 63 + b'\x01']):
+        good = sum(payload) & 0xFFFFFFFF
+        fields = [0, 0xFFFFFFFF, good + 1, good - 1, good ^ 0x80000000, good << 8 & 0xFFFFFFFF, int.from_bytes(good.to_bytes(4, 'little'), 'big'), len(payload)]
+        for fi, field in enumerate(f_ for f_ in fields if f_ != good):
+            for mode in ('sync', 'async'):
+                dev = simdev.SimDevice(auth=simdev.AuthPolicy(version=(0x01000000, 0x01000001)[(pi + fi) % 2]))
+                dev.shell_scripts[b'shell:x'] = [payload, b'tail']
+                sess = env.Session(mode, dev, rtype=RTYPES[(pi + fi) % len(RTYPES)])
+
+                def mangle(meta_, payload=payload, field=field):
+                    b = bytearray(meta_['bytes'])
+                    if meta_['pk']['cmd'] == 'WRTE' and bytes(b[24:]) == payload:
+                        b[16:20] = wire.le32(field & 0xFFFFFFFF)
+                    return bytes(b)
+                sess.core.mangle = mangle
+                sess.call('connect')
+                o = sess.call('shell', 'x', decode=False)
+                sess.call('close')
+                sess.close_loop()
+                traces.append([dict(ev='corrupt', cls=o.exc_name or 'returned', leak=(o.kind == 'ret'))])
+                meta.append(dict(kind='checksum field', payload_len=len(payload), field=field & 0xFFFFFFFF, genuine=good, mode=mode))
     # 3c unknown command words
     words = set()
     for w in wire.CMD_WORD.values():
